@@ -90,6 +90,11 @@ def zernike(mask, index, normalize=True, rho=None, theta=None):
         else:
             Z = R(m, n, rho) * np.sin(m*theta) * mask
 
+    if n > 0:
+        # exactly zero outside the mask (far outside a small mask rho**n
+        # overflows at high orders, and inf * False is NaN)
+        Z = np.where(mask, Z, 0.0)
+
     #out[mask_slice] = Z
     out = Z
     return out
